@@ -20,31 +20,41 @@ theorem destination_rule (destdir pfx ip : Str) (hd : destdir ≠ []) (hpfx : is
       keyOfAbs destdir ++ (if isAbs ip then keyOfAbs ip else keyOfAbs pfx ++ keyOfAbs ip) :=
   dest_key destdir pfx ip hd hpfx h1 h2 h3
 
-/-- the full confinement statement for destinations: *every* install path lands beneath DESTDIR -/
-def confined_full_statement : Prop :=
-  ∀ destdir pfx ip : Str, destdir ≠ [] → isAbs pfx = true →
-    keyOfAbs destdir <+: keyOfAbs (getDestdirPath destdir (destdirJoin destdir pfx) ip)
+/-- confinement of destinations at full strength (after the repair of F-INSTALL-DOTDOT): for every plan,
+option set and install path — `..` components included — whenever `get_destdir_path` returns instead of
+raising, the destination lies beneath DESTDIR -/
+theorem confined_destination (p : Plan) (o : Opts) (path out : Str)
+    (hd : isAbs (mkCfg p o).destdir = true) (h : destPath (mkCfg p o) path = some out) :
+    isAbs out = true ∧ keyOfAbs (mkCfg p o).destdir <+: keyOfAbs out := by
+  unfold destPath at h
+  simp only [] at h
+  split at h
+  · rename_i hok
+    have ho : isAbs out = true := by
+      have := isAbs_getDestdirPath (mkCfg p o).destdir p.pfx path hd
+      simp only [Option.some.injEq] at h
+      rw [← h]; exact this
+    simp only [Option.some.injEq] at h
+    exact ⟨ho, destOk_sound _ _ hd ho (h ▸ hok)⟩
+  · simp at h
 
-/-- confinement of destinations, under the hypothesis the proof needs: no `..` component -/
-theorem confined_partial (destdir pfx ip : Str) (hd : destdir ≠ []) (hpfx : isAbs pfx = true)
-    (h1 : NoDotDot destdir) (h2 : NoDotDot pfx) (h3 : NoDotDot ip) :
-    keyOfAbs destdir <+: keyOfAbs (getDestdirPath destdir (destdirJoin destdir pfx) ip) := by
-  rw [destination_rule destdir pfx ip hd hpfx h1 h2 h3]
-  exact List.prefix_append _ _
+/-- the former escape is refused: `share/../../../outside/d.txt`, prefix `/usr`, `DESTDIR=/tmp/x/dest`;
+an install path with `..` that stays inside DESTDIR is still accepted -/
+example :
+    let o : Opts := { destdir := some "/tmp/x/dest".toList, dryRun := false, onlyChanged := false, tags := none,
+                      skipSubprojects := [], ambientUmask := 0o022 }
+    let p : Plan := { buildDir := "/b".toList, pfx := "/usr".toList, umask := none, subdirs := [], targets := [],
+                      headers := [], man := [], emptydirs := [], data := [], symlinks := [] }
+    destPath (mkCfg p o) "share/../../../outside/d.txt".toList = none ∧
+    destPath (mkCfg p o) "/etc/../../outside/d.txt".toList = none ∧
+    destPath (mkCfg p o) "share/../lib/d.txt".toList = some "/tmp/x/dest/usr/share/../lib/d.txt".toList := by
+  decide
 
-/-- the hypotheses of `confined_partial` are satisfiable, on a path with spaces, doubled and trailing slashes -/
+/-- the hypotheses of `destination_rule` are satisfiable, on a path with spaces, doubled and trailing slashes -/
 example : NoDotDot "/tmp/x y/dest/".toList ∧ NoDotDot "/usr//local".toList ∧ NoDotDot "share/my app/./d.txt".toList ∧
     keyOfAbs (getDestdirPath "/tmp/x y/dest/".toList (destdirJoin "/tmp/x y/dest/".toList "/usr//local".toList)
       "share/my app/./d.txt".toList) =
       ["tmp", "x y", "dest", "usr", "local", "share", "my app", "d.txt"].map String.toList := by
-  decide
-
-/-- the real code leaves DESTDIR when the install path contains `..` (finding F-INSTALL-DOTDOT):
-`install_dir: 'share/../../../outside'`, prefix `/usr`, `DESTDIR=/tmp/x/dest` is written to `/tmp/x/outside` -/
-theorem confined_counterexample : ¬ confined_full_statement := by
-  intro h
-  have := h "/tmp/x/dest".toList "/usr".toList "share/../../../outside/d.txt".toList (by decide) (by decide)
-  revert this
   decide
 
 /-! ### selection: `--tags` and `--skip-subprojects` -/
